@@ -171,7 +171,9 @@ int main(int argc, char **argv) {
             unsigned char vb0[1100]; size_t vn = mkval(vb0, v);
             char *name = NULL; unsigned char *vb = vh_malloc(vn ? vn : 1);
             memcpy(vb, vb0, vn);
-            if (k) { name = vh_malloc(strlen(kn[k]) + 1); strcpy(name, kn[k]); }
+            /* the key sits at one of the four alignments modulo 4 and still ends where its block ends */
+            char *name0 = NULL; size_t koff = ((size_t) (((uint32_t) vh_step * 2654435761u) >> 30));
+            if (k) { name0 = vh_malloc(strlen(kn[k]) + 1 + koff); name = name0 + koff; strcpy(name, kn[k]); }
             int ok = 1, rv = 0; long n = 0; size_t sz = 0; void *p = NULL;
             static int outk[70000], outv[70000]; int nout = -1;
             long lkb = VH_LOCK_BALANCE(), ovb = vh_overlap_copies, bfb = vh_badfree;
@@ -218,7 +220,7 @@ int main(int argc, char **argv) {
             long nfail = vh_failed;
             vh_call_end();
             alarm(0);
-            if (name) { memset(name, '#', strlen(name)); vh_free(name); }
+            if (name) { memset(name, '#', strlen(name)); vh_free(name0); }
             memset(vb, 0x5A, vn); vh_free(vb);
             int h = k ? khome[k] : 0;
             int full = (realR <= 8) || (evno % 200 == 0);
